@@ -37,7 +37,9 @@ class PrintUsingFormatter:
                 self.fmt_parts.append(('str', fmt[i]))
                 i += 1
             elif fmt[i] == '_':
-                non_formatting += fmt[i+1]
+                # the next character is literal; an underscore at the
+                # very end stands for itself
+                non_formatting += fmt[i+1] if i + 1 < len(fmt) else '_'
                 i += 2
             else:
                 non_formatting += fmt[i]
